@@ -642,3 +642,126 @@ Proof.
   - vm_compute. discriminate.
   - vm_compute in Hq. discriminate.
 Qed.
+
+(** * The stack's encryption start procedure *)
+Lemma cfind_cupd_same h f l : cfind h (cupd h f l) = option_map f (cfind h l).
+Proof.
+  induction l as [|[h' c] r IH]; cbn [cfind cupd option_map]; [reflexivity|].
+  destruct (N.eqb h h') eqn:Eq; cbn [cfind]; rewrite Eq; [reflexivity|exact IH].
+Qed.
+
+Lemma cfind_cupd_other h h' f l : h <> h' -> cfind h' (cupd h f l) = cfind h' l.
+Proof.
+  intros Hne. induction l as [|[h2 c] r IH]; cbn [cfind cupd]; [reflexivity|].
+  destruct (N.eqb h h2) eqn:Eq; cbn [cfind].
+  - apply N.eqb_eq in Eq. subst h2.
+    replace (N.eqb h' h) with false by (symmetry; apply N.eqb_neq; congruence). reflexivity.
+  - rewrite IH. reflexivity.
+Qed.
+
+Lemma cfind_cupd_some h h' f l : (if cfind h' (cupd h f l) then true else false) = (if cfind h' l then true else false).
+Proof.
+  destruct (N.eq_dec h h') as [<-|Hne].
+  - rewrite cfind_cupd_same. destruct (cfind h l); reflexivity.
+  - rewrite cfind_cupd_other by exact Hne. reflexivity.
+Qed.
+
+Section StackProofs.
+  Variable E : bytes -> bytes -> bytes.
+
+  Lemma ll_run_app st a b :
+    ll_run E st (a ++ b) =
+    let '(st1, o1) := ll_run E st a in let '(st2, o2) := ll_run E st1 b in (st2, o1 ++ o2).
+  Proof.
+    revert st. induction a as [|ev a IH]; intros st; cbn [app ll_run].
+    - destruct (ll_run E st b). reflexivity.
+    - destruct (ll_step E st ev) as [st1 o]. rewrite IH.
+      destruct (ll_run E st1 a) as [st2 o1]. destruct (ll_run E st2 b) as [st3 o2]. reflexivity.
+  Qed.
+
+  Lemma mk_manager_wf p : proc_wfb p = true ->
+    exists m, mk_manager E (p_key p) (proc_mat p) = Ok m.
+  Proof.
+    unfold proc_wfb, mk_manager. intros H. apply andb_true_iff in H as [Hl Hr].
+    cbn [m_skd m_iv s_skd s_iv proc_mat]. rewrite Hr, Hl. cbn [negb]. eauto.
+  Qed.
+
+  (** one procedure, from ANY link-layer state in which its handle is registered: the PHY is
+      given exactly this procedure's material, and registration of handles is preserved *)
+  Lemma proc_run p st :
+    proc_wfb p = true -> registered (p_h p) st = true ->
+    exists st', fst (ll_run E st (proc_events p)) = st' /\
+                set_enc_only (snd (ll_run E st (proc_events p))) = [proc_expected E p] /\
+                (forall h, registered h st' = registered h st).
+  Proof.
+    intros Hwf Hreg. destruct (mk_manager_wf p Hwf) as [m Hm].
+    unfold registered in Hreg. destruct (cfind (p_h p) (conns st)) as [c|] eqn:Hc; [|discriminate].
+    unfold proc_events. destruct (p_central p).
+    - (* central: register key, start_encryption, LL_ENC_RSP, LL_START_ENC_REQ *)
+      cbn [ll_run ll_step with_conns conns llcm].
+      rewrite cfind_cupd_same, Hc. cbn [option_map set_key ckey].
+      cbn [with_conns conns llcm].
+      rewrite cfind_cupd_same, cfind_cupd_same, Hc. cbn [option_map set_key set_proc ckey cskd civ].
+      fold (proc_mat p). rewrite Hm. cbn [conns llcm].
+      rewrite cfind_cupd_same, cfind_cupd_same, Hc. cbn [option_map set_key set_proc crand cediv].
+      eexists. split; [reflexivity|]. split; [reflexivity|].
+      intros h. unfold registered. cbn [fst conns].
+      rewrite !cfind_cupd_some. reflexivity.
+    - (* peripheral: register key, LL_ENC_REQ *)
+      cbn [ll_run ll_step with_conns conns llcm].
+      rewrite cfind_cupd_same, Hc. cbn [option_map set_key ckey].
+      fold (proc_mat p). rewrite Hm.
+      eexists. split; [reflexivity|]. split; [reflexivity|].
+      intros h. unfold registered. cbn [fst conns].
+      rewrite !cfind_cupd_some. reflexivity.
+  Qed.
+
+  (** all sequences of procedures (same or different handles, both roles, any material):
+      the k-th set_encryption carries the k-th procedure's own material *)
+  Lemma stack_procedures : forall (procs : list proc) (st : lls),
+    Forall (fun p => proc_wfb p = true /\ registered (p_h p) st = true) procs ->
+    set_enc_only (snd (ll_run E st (concat (map proc_events procs)))) = map (proc_expected E) procs.
+  Proof.
+    induction procs as [|p r IH]; intros st Hall; [reflexivity|].
+    inversion Hall as [|? ? [Hwf Hreg] Hrest]; subst.
+    cbn [map concat]. rewrite ll_run_app.
+    destruct (proc_run p st Hwf Hreg) as (st' & Hst & Hout & Hpres).
+    destruct (ll_run E st (proc_events p)) as [st1 o1] eqn:R1. cbn [fst snd] in Hst, Hout. subst st1.
+    destruct (ll_run E st' (concat (map proc_events r))) as [st2 o2] eqn:R2.
+    cbn [snd]. unfold set_enc_only in *. rewrite filter_app, Hout. cbn [app]. f_equal.
+    specialize (IH st'). rewrite R2 in IH. cbn [snd] in IH. apply IH.
+    eapply Forall_impl; [|exact Hrest]. intros q [Hq1 Hq2]. split; [exact Hq1|]. rewrite Hpres. exact Hq2.
+  Qed.
+
+  (** both sides of a procedure hand the same material to their PHY *)
+  Lemma stack_both_roles p q st st' :
+    proc_wfb p = true -> registered (p_h p) st = true -> registered (p_h q) st' = true ->
+    p_central p = true -> p_central q = false ->
+    p_h q = p_h p -> p_key q = p_key p -> p_rand q = p_rand p -> p_ediv q = p_ediv p ->
+    p_skdm q = p_skdm p -> p_ivm q = p_ivm p -> p_skds q = p_skds p -> p_ivs q = p_ivs p ->
+    set_enc_only (snd (ll_run E st (proc_events p))) = set_enc_only (snd (ll_run E st' (proc_events q))).
+  Proof.
+    intros Hwf Hr Hr' _ _ Hh Hk H1 H2 H3 H4 H5 H6.
+    assert (Hwfq : proc_wfb q = true).
+    { unfold proc_wfb in *. rewrite Hk, H3, H4, H5, H6. exact Hwf. }
+    destruct (proc_run p st Hwf Hr) as (_ & _ & -> & _).
+    destruct (proc_run q st' Hwfq Hr') as (_ & _ & -> & _).
+    unfold proc_expected, proc_mat. rewrite Hh, Hk, H1, H2, H3, H4, H5, H6. reflexivity.
+  Qed.
+End StackProofs.
+
+(** interleaved procedures on two handles: the faithful model (one shared manager) hands
+    handle 1 the material of handle 2 *)
+Lemma stack_interleaved_refuted : ~ stack_interleaved_statement.
+Proof.
+  intros H.
+  specialize (H aes128_enc aes128_enc_length
+                {| conns := [(1%N, cstate0); (2%N, cstate0)]; llcm := None |}
+                {| p_central := true; p_h := 1; p_key := fips197_B_key; p_rand := 0; p_ediv := 0;
+                   p_skdm := 11; p_ivm := 22; p_skds := 33; p_ivs := 44 |}
+                {| p_central := true; p_h := 2; p_key := fips197_C1_key; p_rand := 5; p_ediv := 6;
+                   p_skdm := 111; p_ivm := 222; p_skds := 333; p_ivs := 444 |}
+                eq_refl eq_refl eq_refl eq_refl).
+  assert (Hne : 1%N <> 2%N) by discriminate.
+  specialize (H Hne). vm_compute in H. discriminate.
+Qed.
